@@ -90,6 +90,9 @@ func init() {
 			}
 			mixStores(cfg, r, 0.4)
 			if r.Bool(0.4) {
+				cfg.PAsync = 0.1 + 0.3*r.Float()
+			}
+			if r.Bool(0.4) {
 				// persistent nodes with caches small enough that old blocks are re-read from the database
 				cfg.BadgerCache = []int{60, 100, 200}[r.Intn(3)]
 			} else if r.Bool(0.6) {
